@@ -373,7 +373,7 @@ PROPS["C10"] = dict(
     "truncation, overlong varints, duplicated slices, splices) and structurally valid protobufs with extreme field values generated from the descriptors (0/1/MAX/MIN integers, "
     "1_000_000_000 nanos, byte strings of every interesting length, missing/repeated fields), in the production-like and the overflow-checked flavour. L1: length-prefixed frames with "
     "announced lengths 0/max/max+1/u32::MAX and short bodies. L2: garbage noise handshake messages in both roles. L4: after a valid mux handshake every one of the 65536 frame headers in "
-    "2-4 connection states. L5: a raw mux peer sends the real rpc::Service request frames announcing 0 / max / max+1 / 2^30 / u32::MAX bytes and malformed bodies. L4b (mux-flood): after a valid mux handshake a raw peer floods DATA, OPEN and CLOSE frames (towards the accept side and towards an idle connect side) and never reads, while the application consumes nothing; the bytes the multiplexer pulled from the transport must stay within read_buffer_size + read_frame_size + per-frame overhead for read_frame_count frames. L6: Byzantine validators send well-signed absurd consensus messages (view/block numbers at u64::MAX, bitmaps of wrong length, empty certificates) into real "
+    "2-4 connection states. L5: a raw mux peer sends the real rpc::Service request frames announcing 0 / max / max+1 / 2^30 / u32::MAX bytes and malformed bodies. L4b (mux-flood): after a valid mux handshake a raw peer floods DATA, OPEN and CLOSE frames (towards the accept side and towards an idle connect side) and never reads, while the application consumes nothing; the bytes the multiplexer pulled from the transport must stay within read_buffer_size + read_frame_size + per-frame overhead for read_frame_count frames. L7 (node-absurd): a real node (testonly::Instance over a real EngineManager) is attacked by an honestly authenticated raw gossip peer with well-formed absurd RPCs - block-store states, get_block numbers and address announcements at the edges of their domains (0, u64::MAX, certificates of unknown blocks, forged signatures), empty answers to the node's own get_block calls, hanging up mid-way; no panic in the process, and a fresh honest connection is served after every hostile session. L6: Byzantine validators send well-signed absurd consensus messages (view/block numbers at u64::MAX, bitmaps of wrong length, empty certificates) into real "
     "replicas of the simulator. Oracle: no panic, no abort, the entry point returns, peak allocation stays within 64 x input + 1 MB; a replica that stops on its own is a violation.",
     assumptions=["held on the generated inputs only (decoder stage: thousands of inputs per type; mux header stage: exhaustive per connection state)", "the L3 preface stage shares its framing with L1 and is exercised by the C12 workload"],
     stages=[
@@ -382,9 +382,10 @@ PROPS["C10"] = dict(
         dict(name="frames", flavour="release", args={"mode": "frames"}, shards=4, abort_is_violation=True, **NET),
         dict(name="mux-headers", flavour="release", args={"mode": "mux-headers"}, abort_is_violation=True, **NET),
         dict(name="mux-flood", flavour="release", args={"mode": "mux-flood"}, abort_is_violation=True, **NET),
+        dict(name="node-absurd", flavour="release", args={"mode": "node-absurd"}, abort_is_violation=True, **NET),
         dict(name="absurd-messages", flavour="release", abort_is_violation=True, args={"steps": 900}, **SIM),
         dict(name="absurd-messages-checked", flavour="checked", abort_is_violation=True, args={"steps": 900}, **SIM),
     ],
-    floors={"quick": {"decode_inputs_structured-extremes": 100000, "decode_inputs_mutated-valid": 100000, "decoder_kinds": 36, "mux_headers_probed": 131072, "frame_inputs": 1000, "rpc_request_inputs": 500, "byz_byz-absurd": 300, "flood_of_control_frames_cases": 200},
+    floors={"quick": {"decode_inputs_structured-extremes": 100000, "decode_inputs_mutated-valid": 100000, "decoder_kinds": 36, "mux_headers_probed": 131072, "frame_inputs": 1000, "rpc_request_inputs": 500, "byz_byz-absurd": 300, "flood_of_control_frames_cases": 200, "hostile_sessions": 200, "absurd_block_store_states": 500, "node_still_serving_after_hostile_session": 200},
             "thorough": {"mux_headers_probed": 262144}},
 )
